@@ -68,6 +68,22 @@ where
             return Ok(false);
         }
 
+        if unlikely(expanded) {
+            // After rolling back a truncating commit the region ends below stored_len: the
+            // missing tail lives in `updated` (a deleted slot has no value). Extend the region
+            // to stored_len with one contiguous write first, so that the append and the
+            // per-entry updates below start from a region that backs every stored slot.
+            let mut bytes = Vec::with_capacity((stored_len - real_stored_len) * Self::SIZE_OF_T);
+            for index in real_stored_len..stored_len {
+                match self.updated().get(&index) {
+                    Some(value) => S::write_to_vec(value, &mut bytes),
+                    None => bytes.resize(bytes.len() + Self::SIZE_OF_T, 0),
+                }
+            }
+            self.region()
+                .truncate_write(real_stored_len * Self::SIZE_OF_T + HEADER_OFFSET, &bytes)?;
+        }
+
         let from = stored_len * Self::SIZE_OF_T + HEADER_OFFSET;
 
         if has_new_data {
